@@ -9,7 +9,7 @@ import z3
 import black_it.schedulers.rl.agents.epsilon_greedy as eg
 import black_it.schedulers.rl.envs.mab as mab
 import black_it.utils.seedable as seedable
-from harness.common import Case, f
+from harness.common import Case, f, inject
 from symx.core import Sym, lift
 from symx.npx import patched
 from symx.stubs import ScriptedGenerator, SymGenerator, script_from, sym_default_rng
@@ -26,8 +26,10 @@ NUMBER_MODEL = "R (exact reals/ints)"
 EXPLANATION = (
     "One inductive step of the real agent/env methods from an arbitrary symbolic state (Q: free Reals, counts: free Ints >= 0, "
     "reference best loss > 0, alpha a free Real or the sentinel -1, eps in [0,1], reward free, random draws = uninterpreted terms of "
-    "(seed, counter)). z3 proves the update equations, the frame conditions (other entries unchanged), greedy choice for eps=0, index "
-    "validity and determinism (two agents with equal seed and equal state pick equal actions). A step from an arbitrary state covers "
+    "(seed, counter)). z3 proves the update equations and the frame conditions (other entries unchanged) for that step. policy() - greedy choice "
+    "for eps=0, index validity, determinism (equal seed and equal observation history => equal action) - is checked on states REACHED through the public "
+    "API: constructor, then every action sequence of length <= 3 (5 thorough) with symbolic rewards, alpha and eps; no state is injected there, "
+    "so an implementation may keep derived state. A step from an arbitrary state covers "
     "reward/observation histories of any length. Base case: the state built by the real constructor and by reset() for initial values "
     "given as Python int / float / numpy scalars (enumerated element types) followed by 1-3 symbolic updates."
 )
@@ -41,8 +43,8 @@ REQUIRED_LABELS = ["reward_rule", "reference_moves_iff_improved", "learn_update"
 
 
 def bounds(tier):
-    return {"quick": "n_actions 1..4, every action index, arbitrary symbolic Q/counts/alpha/eps/reward/losses",
-            "thorough": "n_actions 1..8; plus 2..5 successive learn steps on the same action (count continuity)"}[tier]
+    return {"quick": "n_actions 1..4, every action index, arbitrary symbolic Q/counts/alpha/eps/reward/losses for the learn/reward step; policy() after every action sequence of length 1..3 (symbolic rewards, alpha, eps) from the constructed state",
+            "thorough": "n_actions 1..8; plus 2..5 successive learn steps on the same action (count continuity); policy() after every action sequence of length <= 5"}[tier]
 
 
 def _patches():
@@ -55,7 +57,7 @@ def case_reward():
         new = ctx.real("new")
         ctx.assume(prev > 0)
         env = mab.MABCalibrationEnv(3)
-        env._curr_best_loss = prev
+        inject(env, "_curr_best_loss", prev)
         r = env.get_reward(None, new)
         exp = z3.If(new.t < prev.t, (prev.t - new.t) / prev.t, z3.RealVal(0))
         ctx.prove(lift(r) == exp, "reward_rule")
@@ -89,8 +91,8 @@ def _mk_agent(ctx, n, sym_seed=None):
     agent = eg.MABEpsilonGreedy(n, alpha, eps, initial_values=0.0, random_state=sym_seed)
     Q = [ctx.real(f"Q{i}") for i in range(n)]
     C = [ctx.int(f"cnt{i}", 0) for i in range(n)]
-    agent.Q = list(Q)
-    agent.actions_count = list(C)
+    inject(agent, "Q", list(Q))
+    inject(agent, "actions_count", list(C))
     return agent, alpha, eps, Q, C
 
 
@@ -177,6 +179,52 @@ def case_policy(n):
     return Case(f"policy-n{n}", body, replay)
 
 
+def case_policy_history(n, k, iv):
+    """policy() on states REACHED through the public API: constructor (initial value iv), then k learn() calls with symbolic
+    actions (concretised by forking: n^k sequences) and symbolic rewards; no attribute is written by the harness, so an
+    implementation is free to keep derived state (caches) as long as it keeps it right."""
+    name = f"policy-after-{k}-steps-n{n}-init{iv}"
+
+    def body(ctx):
+        with _patches():
+            seed = ctx.int("seed", 0)
+            alpha = ctx.real("alpha")
+            eps = ctx.real("eps", 0, 1)
+            agent = eg.MABEpsilonGreedy(n, alpha, eps, initial_values=iv, random_state=seed)
+            twin = eg.MABEpsilonGreedy(n, alpha, eps, initial_values=iv, random_state=seed)
+            for s in range(k):
+                a = int(ctx.int(f"act{s}", 0, n - 1))
+                r = ctx.real(f"r{s}", 0, 1)
+                agent.learn(0, a, r, 0)
+                twin.learn(0, a, r, 0)
+            Q = [lift(q) for q in agent.Q]
+            act = agent.policy(0)
+            act2 = twin.policy(0)
+            ctx.prove(z3.BoolVal(isinstance(act, int) and 0 <= act < n), "policy_valid_index", f"{name}: action={act}")
+            ctx.prove(z3.BoolVal(act == act2), "policy_deterministic", "same seed + same observation history => same action")
+            ctx.prove(z3.Implies(eps.t == 0, z3.And(*[Q[act] >= Q[i] for i in range(n)])), "policy_greedy_eps0", f"{name}: chosen action {act}")
+            ctx.prove(z3.And(*[lift(agent.Q[i]) == Q[i] for i in range(n)]), "learn_frame", "policy leaves the estimates unchanged")
+
+    def replay(cex):
+        v = cex.values
+        acts = [int(v.get(f"act{s}") or 0) for s in range(k)]
+        alpha = float(f(v.get("alpha") if v.get("alpha") is not None else 0.5))
+        for al, rs in ((alpha, [float(f(v.get(f"r{s}") if v.get(f"r{s}") is not None else 0.5)) for s in range(k)]), (0.5, [0.0] * k), (-1, [0.0] * k), (0.5, [0.9 - 0.4 * s for s in range(k)])):
+            try:
+                ag = eg.MABEpsilonGreedy(n, al, 0.0, initial_values=iv, random_state=0)
+                for a, r in zip(acts, rs):
+                    ag.learn(0, a, max(0.0, r), 0)
+                act = ag.policy(0)
+                q = [float(x) for x in ag.Q]
+            except Exception as e:  # noqa: BLE001
+                return True, f"raised {type(e).__name__}: {e}"
+            if not (isinstance(act, int) and 0 <= act < n) or q[act] < max(q):
+                return True, f"initial_values={iv} alpha={al} eps=0 after learn{list(zip(acts, rs))}: policy chose action {act} with estimate {q[act] if 0 <= act < n else None}, estimates {q}"
+        return False, f"initial_values={iv} actions {acts}: greedy choice maximal on the instances tried"
+
+    return Case(name, body, replay)
+
+
 def case_init(n):
     def body(ctx):
         with _patches():
@@ -257,7 +305,8 @@ def cases(tier, seed):
     cs = [case_reward()]
     for n in range(1, N + 1):
         cs.append(case_init(n))
-        cs.append(case_policy(n))
+        # (case_policy(n): policy() from an INJECTED arbitrary estimate vector is no longer part of the verdict - an implementation
+        #  keeping correct derived state would be reported wrongly; policy() is checked on reachable states below)
         for a in range(n):
             cs.append(case_learn(n, a))
     if tier == "thorough":
@@ -267,6 +316,9 @@ def cases(tier, seed):
             cs.append(case_learn(n, n // 2, steps=5))
     else:
         cs.append(case_learn(2, 1, steps=2))
+    # policy() on states reached through the public API only (no injected state)
+    for n_, k_, iv_ in ([(2, 1, 0.05), (3, 2, 0.0), (2, 3, 0.0), (3, 1, 0.05)] if tier == "quick" else [(2, 1, 0.05), (3, 2, 0.0), (2, 3, 0.0), (3, 3, 0.05), (4, 3, 0.0), (2, 5, 0.0), (3, 4, 0.05)]):
+        cs.append(case_policy_history(n_, k_, iv_))
     # base case of the induction: the state the real constructor / reset() builds, for each element type of the initial value
     for iv_name, iv in (INIT_VALUES if tier == "thorough" else INIT_VALUES[:6]):
         cs.append(case_learn_from_constructor(3, 1, iv_name, iv, 2))
@@ -281,6 +333,6 @@ def cases(tier, seed):
 
 MANIFEST = {
     "category": "other",
-    "text": "Inductive one-step symbolic verification of the real MABCalibrationEnv.get_reward and MABEpsilonGreedy.learn/policy from an arbitrary symbolic state: z3 proves the reward formula and reference-loss movement, the incremental update with step 1/count or alpha, the frame conditions, greedy choice for eps=0, index validity and seed-determinism. An arbitrary pre-state stands for every reward history.",
+    "text": "Inductive one-step symbolic verification of the real MABCalibrationEnv.get_reward and MABEpsilonGreedy.learn/policy from an arbitrary symbolic state: z3 proves the reward formula and reference-loss movement, the incremental update with step 1/count or alpha and the frame conditions (an arbitrary pre-state stands for every reward history); greedy choice for eps=0, index validity and seed-determinism of policy() are proved on the states reached by every action sequence of bounded length with symbolic rewards from the really constructed agent (int / float / numpy initial values).",
     "note": "Exact real arithmetic (no float rounding); RNG replaced by the documented Generator contract (uninterpreted draws of (seed,counter)); previous best loss assumed > 0; n_actions bounded (4 quick / 6 thorough).",
 }
